@@ -673,6 +673,10 @@ def gen_gauss(r):
     if not vals:
         return g.generate(4), g.family_name
     fresh = [0]
+
+    def has_delta(name):
+        return any(op["op"] == "delta" for op in prune(g.program, [name]))
+
     for _ in range(r.randint(2, 7)):
         c = r.random()
         a = r.choice(vals)
@@ -682,9 +686,13 @@ def gen_gauss(r):
         out = None
         if c < 0.22:
             b = r.choice(vals)
-            out = g.emit({"op": "binary", "fn": r.choice(["add", "add", "add", "sub"]), "a": a, "b": b})
+            fn = r.choice(["add", "add", "add", "sub"])
+            if fn == "sub" and (has_delta(a) or has_delta(b)):
+                fn = "add"  # (-inf) - (-inf) is an arithmetic edge case (nan), not a rewrite question
+            out = g.emit({"op": "binary", "fn": fn, "a": a, "b": b})
         elif c < 0.27:
-            out = g.emit({"op": "unary", "fn": "neg", "a": a})
+            if not has_delta(a):
+                out = g.emit({"op": "unary", "fn": "neg", "a": a})
         elif c < 0.52 and real_in:
             n = r.choice(real_in)
             shape = list(ta.inputs[n].shape)
